@@ -11,9 +11,33 @@ NOTE_COMMON = ("Trusted base: Go 1.26.8 runtime and testing/synctest (virtual cl
 
 # id -> (technique, level text, design ref, note extra)
 CLAIMED = {
+ "C03": ("deterministic simulation: raw HTTP clients and scripted backend around the real http.Server+mux+Pipeline+Proxy over a simulated TCP network (segmentation, latency, resets), strict wire-level response parser as oracle",
+         "Seeded search over chain configurations x request/response shapes x network fragmentation/latency x client interleavings; every exchange is compared field by field (method, path, query, headers, body, framing) between what the client sent/received and what the backend received/sent. Exploration: the input space is unbounded; framing and keep-alive reuse only show on a real byte stream, which the simulated network provides deterministically.",
+         "DESIGN.md §6 C03", "net/http client and server code is real; the network is simnet."),
+ "C04": ("deterministic simulation: concurrent selector and updater tasks on the real ServerPool/load balancers under the seeded scheduler (gates at atomic.Value, the round-robin counter and seeded math/rand), versioned-list reference model",
+         "Seeded search over policies x server lists x keys x interleavings of selection with list replacement; each choice is judged against the set of list generations current during the call, fairness per generation at quiescent instants.",
+         "DESIGN.md §6 C04", "fnSendRequest is stubbed by a recorder."),
+ "C05": ("deterministic simulation: request histories from concurrent clients against the real mux with route cache, compared with quiescent cache-less / filter-less twins of the same code",
+         "Seeded search over allow/block lists at three levels x client addresses x request histories that populate the route cache x client interleavings; denial and routing are compared with twins and with net.IPNet membership.",
+         "DESIGN.md §6 C05", "routing itself is taken from a twin of the same code (C01's domain is not judged)."),
+ "C07": ("deterministic simulation: same real HTTP chain as C03 with body sizes on and around the effective limits, declared/chunked/lying lengths, over a simulated TCP network",
+         "Seeded search over limit settings at path/server/pool/proxy level x body sizes around the limit x encodings x segmentation; the client-visible status/body and what the backend saw are compared with the limit rules of the statement.",
+         "DESIGN.md §6 C07", "the 4 MiB default is exercised in the thorough tier only."),
  "C08": ("deterministic simulation: real CircuitBreaker + resilience wrapper under seeded scheduler and virtual clock, lock-step comparison with a reference automaton",
          "Seeded search over policies x call histories x interleavings x clock advances; every admission and recorded result of the real breaker is compared with an independent reference automaton written from the statement. Exploration is the right level: the space (histories x schedules x clock positions) is unbounded and the breaker is cheap enough for ~10^5 runs per minute.",
          "DESIGN.md §6 C08", ""),
+ "C09": ("deterministic simulation: real RateLimiter / MultiRateLimiter / RateLimiter filter (incl. reload) / MQTT limiter driven by concurrent tasks on the virtual clock, reservation-ledger oracle",
+         "Seeded search over policies x arrival patterns (bursts, exact period boundaries, idle gaps) x concurrent acquirers x reloads; per-period release counts, waits and rejections are checked against a ledger written from the statement.",
+         "DESIGN.md §6 C09", "a hook file added by overlay reports the instants the limiter reads from its clock (still time.Now on the virtual clock)."),
+ "C12": ("deterministic simulation: request histories from concurrent clients against twin real muxes (cacheSize n vs 0), including colliding keys and constant eviction",
+         "Seeded search over rule sets x request sequences x cache sizes x client interleavings; each answer of the cached mux must equal the cache-less twin's answer.",
+         "DESIGN.md §6 C12", "the oracle is the same routing code without cache."),
+ "C14": ("deterministic simulation: concurrent MQTT client tasks driving the real TopicManager/processSubscribe/processUnsubscribe/closeAndDelSession under the seeded scheduler, compared with an MQTT 3.1.1 reference matcher",
+         "Seeded search over subscribe/unsubscribe/disconnect histories x filters with wildcards/empty levels/malformed x LRU sizes x interleavings; routing results and residue are compared with a reference subscription set.",
+         "DESIGN.md §6 C14", ""),
+ "C20": ("deterministic simulation: snapshot sequences fed through a mocked cluster syncer into the real Supervisor/ObjectRegistry/TrafficController/RawConfigTrafficController with panicking lifecycle callbacks, per-name lifecycle automaton as oracle",
+         "Seeded search over snapshot histories (appear/change/unchanged/disappear/reappear/kind change/coalesced) x injected panics in Init/Inherit/Close x goroutine interleavings; recorded lifecycle calls are compared with the sequence derived from the snapshots.",
+         "DESIGN.md §6 C20", "the cluster is clustertest.MockedCluster; object kinds are recording test kinds."),
 }
 
 PENDING = {}
